@@ -1177,6 +1177,7 @@ class DropnaFrame(Blockwise):
             columns = determine_column_projection(
                 self, parent, dependents, additional_columns=self.subset
             )
+            columns = _labels_to_list(columns)
             columns = [col for col in self.frame.columns if col in columns]
 
             if columns == self.frame.columns:
@@ -1205,6 +1206,7 @@ class CombineFirst(Blockwise):
     def _simplify_up(self, parent, dependents):
         if isinstance(parent, Projection):
             columns = determine_column_projection(self, parent, dependents)
+            columns = _labels_to_list(columns)
             frame_columns = [col for col in self.frame.columns if col in columns]
             other_columns = [col for col in self.other.columns if col in columns]
             if (
@@ -3650,6 +3652,7 @@ class CombineFirstAlign(MaybeAlignPartitions):
         # TODO: de-duplicate
         if isinstance(parent, Projection):
             columns = determine_column_projection(self, parent, dependents)
+            columns = _labels_to_list(columns)
             frame_columns = [col for col in self.frame.columns if col in columns]
             other_columns = [col for col in self.other.columns if col in columns]
             if (
